@@ -245,6 +245,7 @@ public:
 		if (shift < 0) {
 			return operator>>=(-shift);
 		}
+		if (iszero()) return *this; // 0 * 10^shift is 0: do not pad
 		for (int i = 0; i < shift; ++i) {
 			this->insert(this->begin(), 0);
 		}
